@@ -264,6 +264,7 @@ class Conn:
         self.out = b""
         self.closed = False
         self.shut_wr = False
+        self.peer_closed = False
 
     def makefile(self, mode="r", buffering=-1, **k):
         raw = _Raw(self)
@@ -273,8 +274,8 @@ class Conn:
 
     def sendall(self, data):
         self.net.sched.yield_point("sendall:%s" % self.client.name)
-        if self.closed:
-            raise BrokenPipeError("closed")
+        if self.closed or self.peer_closed:
+            raise BrokenPipeError("Broken pipe")
         self.out += bytes(data)
 
     send = sendall
@@ -347,6 +348,9 @@ class ListenSocket:
         client.conn = conn
         conn.inbuf = client.early
         client.early = b""
+        if client.hung_up:
+            conn.eof = True
+            conn.peer_closed = True
         return conn, conn.getpeername()
 
     def close(self):
@@ -403,8 +407,12 @@ class FakeSelector:
         return [(srv, 1)] if sock.pending else []
 
 
+HANGUP = object()      # fragment marker: the client closes its end of the connection
+
+
 class Client:
-    """scripted client: connect, send the request in fragments; the reply is collected passively"""
+    """scripted client: connect, send the request in fragments (HANGUP = close the connection);
+    the reply is collected passively"""
 
     def __init__(self, net, idx, fragments):
         self.net = net
@@ -415,6 +423,7 @@ class Client:
         self.conn = None
         self.early = b""
         self.queued = False
+        self.hung_up = False
 
     def enabled(self):
         if self.pos == -1:
@@ -433,6 +442,12 @@ class Client:
             return
         frag = self.fragments[self.pos]
         self.pos += 1
+        if frag is HANGUP:
+            self.hung_up = True
+            if self.conn is not None:
+                self.conn.eof = True
+                self.conn.peer_closed = True
+            return
         if self.conn is not None:
             self.conn.inbuf += frag
         else:
